@@ -427,7 +427,12 @@ class EqSystem(ReactionSystem):
             propagate=False,
             **kwargs
         )
-        sanity = [self._result_is_sane(init_concs, x) for x in xvecs]
+        sanity = []
+        varied_idx = self.as_substance_index(varied)
+        for value, x in zip(varied_data, xvecs):
+            point_init_concs = np.array(init_concs, dtype=np.float64)
+            point_init_concs[varied_idx] = value  # each point has its own initial state
+            sanity.append(self._result_is_sane(point_init_concs, x))
 
         if _plot:
             import matplotlib.pyplot as plt
